@@ -26,6 +26,9 @@ def tags_in(path):
     return out
 
 
+CONFIG_DEFINES = []
+
+
 def run_witness(path, defines=(), compiler="clang++", std="gnu++17", extra=()):
     """returns dict(tags=..., failed={tag: message}, broken=[messages], cmd=...)"""
     tags = tags_in(path)
@@ -35,6 +38,8 @@ def run_witness(path, defines=(), compiler="clang++", std="gnu++17", extra=()):
     else:
         cmd += ["-fmax-errors=0", "-w", "-fno-diagnostics-show-caret", "-fdiagnostics-color=never"]
     for d in defines:
+        cmd.append("-D" + d)
+    for d in CONFIG_DEFINES:  # the configuration under analysis (set by the check driver for a switch sweep)
         cmd.append("-D" + d)
     cmd += list(extra)
     cmd.append(path)
